@@ -158,3 +158,29 @@ def spec_walks(n, outdir, seed=1):
             div.append(r)
     return {"behaviours_generated_by_tlc": k, "actions_executed_on_the_real_code": int(m.group(3)), "conform": int(m.group(2)),
             "divergences": div[:10], "n_divergences": len(div), "tlc_wall_s": round(wall, 1)}
+
+
+def writer_chains(lines):
+    """marker events of one execution -> list of per-connection event lists for T_WriterChain"""
+    chains = {}
+    for l in lines:
+        if '"ev":"mark"' not in l or '"m":"w.' not in l:
+            continue
+        e = json.loads(l)
+        chains.setdefault(e["chain"], []).append((e["k"], e["m"][2:]))
+    out = []
+    for ch, ops in chains.items():
+        n = max(k for k, _ in ops)
+        if n > 160:
+            continue
+        plan = [[] for _ in range(n)]
+        for k, op in ops:
+            if op == "write":
+                plan[k - 1].append(["w", "b"])
+            elif op == "flush":
+                plan[k - 1].append(["f"])
+        evs = [{"ev": "Reset", "plan": plan}]
+        for k, op in ops:
+            evs.append({"ev": "op", "k": k, "op": op})
+        out.append(evs)
+    return out
